@@ -21,6 +21,11 @@ THEOREMS = [
     "PorepyVerif.C28.seg2d_zero_length_errors",
     "PorepyVerif.C28.seg3d_zero_length",
     "PorepyVerif.C28.seg2d_assert_never_fires",
+    "PorepyVerif.C28.sqrt_rewrites",
+    "PorepyVerif.C28.seg2d_eq_sqrt_form",
+    "PorepyVerif.C28.segInter2_segment_order",
+    "PorepyVerif.C28.seg2d_segment_order",
+    "PorepyVerif.C28.seg3d_order_independent",
     "PorepyVerif.C28.seg3dCode_misses_crossing",
     "PorepyVerif.C28.seg3dCode_doubles_touching_point",
 ]
@@ -33,22 +38,22 @@ RULE = ("pairs of segments with integer coordinates, dimension 2 or 3, in a box 
         "crossing in the interior (integer or fractional parameters), T-touching, shared endpoint, parallel disjoint, "
         "colinear disjoint / touching in one point / overlapping / contained / identical, nearly parallel with determinant +-1 at "
         "large coordinates, in 3-D also skew lines, coplanar parallel, and non-parallel pairs whose xy- (or first candidate) minor vanishes; "
-        "plus uniformly random pairs in a tiny box and a few zero-length segments. Every case is evaluated in four argument "
+        "plus uniformly random pairs in a tiny box and zero-length segments (about 5%: first / second / lying on the other segment / both at the same point / both at different points). Every case is evaluated in four argument "
         "orders (as given, segments swapped, endpoints of segment 1 swapped, endpoints of segment 2 swapped), 3-D with int or float arrays. "
         "non-trivial = both segments have positive length; distinct = distinct (dim, tol, coordinates)")
 TRUSTED = [
     "modelled, not verified: binary64 rounding inside segments_2d/segments_3d (model is exact over Q; outputs compared with 1e-9 tolerance), "
     "np.allclose / np.argsort (stable for 4 entries) / boolean-mask indexing glue, the behaviour of float division by an exact zero (nan/inf -> AssertionError) for zero-length 2-D segments",
-    "segments_3d is modelled WITH the two proposed repairs (fixes/C28-segments3d-discriminant-pair.diff, fixes/C28-segments3d-touching-point.diff); on inputs where the unrepaired code "
-    "deviates (the two known findings) the model-vs-code comparison is skipped and only the oracle's classification of the failure is checked; seg3dCode (the code as it is) is used for the decide-witnesses of the findings",
-    "squared-form rewrites of the sqrt comparisons in segments_2d (|a| < tol*sqrt(l1)*sqrt(l2) <=> a^2 < tol^2*l1*l2 for tol >= 0) are documented next to the model definitions, not proved in Lean (no sqrt in the model)",
+    "seg3d models segments_3d as it is now (both repairs fixes/C28-*.diff are applied in /repo); seg3dCode (the code before the repairs) is kept only for the two decide-witnesses of the repaired defects",
+    "the squared-form rewrites of the sqrt comparisons in segments_2d are PROVED (sqrt_rewrites over the reals, seg2d_eq_sqrt_form: the model with Real.sqrt lengths equals the squared-form model for all rational inputs, tol >= 0); what stays outside is the rounding of np.sqrt",
 ]
 EXPLANATION = ("FULL for bounded integer coordinates. seg2d/seg3d are branch-for-branch models over Q with tol a parameter (squared-length form). "
                "seg2d_eq_spec / seg3d_eq_spec: for integer coordinates in [-B,B] with 8*B*B*tol < 1 (B=1000, tol=1e-8: tolSmall_default) the models return exactly the "
                "specification segInter2/segInter3 (same kind, same points; 2-D also same column order); the bound enters only through the gap lemmas summarised by bound_gap. "
                "mem_segInter2_iff / mem_segInter3_iff + segInter_wf: for ALL rational segments of positive length the specification's points are exactly the common points of the two closed segments, "
                "so 'agrees with exact arithmetic' is a theorem about the set intersection, not about a second formula. seg_symmetric (+ seg2d_symmetric, seg3d_symmetric): independence of argument order as sets. "
-               "The real segments_3d violates the property in two ways (known findings, decide-witnesses seg3dCode_misses_crossing / seg3dCode_doubles_touching_point); the model follows the repaired code. "
+               "seg2d_eq_sqrt_form: the squared-form model is the sqrt form of the code. seg3d_order_independent: under the bound segments_3d's result is identical (column order included) in every argument order; seg2d_segment_order: 2-D columns are ordered along segment 1 as documented. "
+               "segments_3d violated the property in two ways (both repaired in /repo; decide-witnesses seg3dCode_misses_crossing / seg3dCode_doubles_touching_point on the pre-repair model). "
                "Correspondence compares result kind exactly and points within 1e-9 (column order included) in four argument orders, and the Lean specification with an independent python Fraction intersection; "
                "the oracle is that independent exact intersection against the real functions.")
 ASSUMPTIONS = ["integer coordinates in [-B, B] and 8*B*B*tol < 1 (bounded-integer reading of 'well-separated degeneracies')",
@@ -258,13 +263,30 @@ def _gen_points(rng, dim, cls, B):
         j0, j1 = sorted(rng.sample(range(-2, 3), 2))
         o2 = _add(o, off)
         return [_add(o, u, i0), _add(o, u, i1), _add(o2, v, j0), _add(o2, v, j1)]
-    if cls == "degenerate":
-        P = _gen_points(rng, dim, rng.choice(["random", "T", "colinear"]), B)
-        w = rng.choice([0, 2, 4])
-        if w < 4:
-            P[w + 1] = list(P[w])
+    if cls == "degenerate":  # zero-length segments, every stratum on purpose
+        kind = rng.choice(["first", "second", "first_on_other", "second_on_other", "both_same", "both_different", "any"])
+        u = _rdir(rng, dim, m)
+        if kind == "first":
+            P = [o, list(o), _rpt(rng, dim, min(B, 3)), _rpt(rng, dim, min(B, 3))]
+        elif kind == "second":
+            P = [_rpt(rng, dim, min(B, 3)), _rpt(rng, dim, min(B, 3)), o, list(o)]
+        elif kind == "first_on_other":  # the point lies on the other segment (interior or end point)
+            k = rng.randint(0, 2)
+            pt = _add(o, u, k)
+            P = [pt, list(pt), o, _add(o, u, 2)]
+        elif kind == "second_on_other":
+            k = rng.randint(0, 2)
+            pt = _add(o, u, k)
+            P = [o, _add(o, u, 2), pt, list(pt)]
+        elif kind == "both_same":
+            P = [o, list(o), list(o), list(o)]
+        elif kind == "both_different":
+            pt = _add(o, u)
+            P = [o, list(o), pt, list(pt)]
         else:
-            P[1], P[3] = list(P[0]), list(P[rng.choice([0, 2])])
+            P = _gen_points(rng, dim, rng.choice(["random", "T", "colinear"]), B)
+            w = rng.choice([0, 2])
+            P[w + 1] = list(P[w])
         return P
     raise ValueError(cls)
 
@@ -439,12 +461,17 @@ def shrink_candidates(case):
 
 
 def stats(cases, impl_outs):
-    out = {"dim2": 0, "dim3": 0, "classes": {}, "exact_kind": {}, "impl_kind_first_order": {}, "tol": {}, "int_dtype": 0, "box": {}}
+    out = {"dim2": 0, "dim3": 0, "zero_length": {}, "classes": {}, "exact_kind": {}, "impl_kind_first_order": {}, "tol": {}, "int_dtype": 0, "box": {}}
     for c, io in zip(cases, impl_outs):
         out["dim2" if c["dim"] == 2 else "dim3"] += 1
         out["classes"][c.get("cls", "?")] = out["classes"].get(c.get("cls", "?"), 0) + 1
         a, b, cc, d = c["p"]
         ex = exact_inter(c["p"])[0]
+        if ex == "degenerate":
+            z1, z2 = a == b, cc == d
+            zk = ("both-same-point" if a == cc else "both-different") if z1 and z2 else (
+                ("first" if z1 else "second") + ("-on-other-segment" if (_on_seg([Fraction(x) for x in (a if z1 else cc)], *([[Fraction(x) for x in q] for q in ((cc, d) if z1 else (a, b))]))) else "-off"))
+            out["zero_length"][f"{c['dim']}d-{zk}"] = out["zero_length"].get(f"{c['dim']}d-{zk}", 0) + 1
         if ex != "degenerate":
             par = _parallel(_sub(b, a), _sub(d, cc))
             ex = ("parallel-" if par else "nonparallel-") + ex
